@@ -579,7 +579,9 @@ impl<'de> Visitor<'de> for IDLValueVisitor {
         while let Some((key, value)) = visitor.next_entry()? {
             let id = match key {
                 IDLValue::Nat32(hash) => Label::Id(hash),
-                IDLValue::Text(name) if name == "_" => continue,
+                // a wire field the expected type does not have: the decoder reads it at `reserved`
+                // under the made-up key `_` (a field that is really named `_` has another value)
+                IDLValue::Text(name) if name == "_" && value == IDLValue::Reserved => continue,
                 IDLValue::Text(name) => Label::Named(name),
                 _ => unreachable!(),
             };
